@@ -128,6 +128,10 @@ Proof.
   - rewrite !andb_true_iff. intros [[[H1 H2] H3] H4]. apply kvs_eqb_eq in H1.
     apply eqb_prop in H2. apply eqb_prop in H3. subst.
     destruct h, h0; try discriminate; trivial. apply Z.eqb_eq in H4. now subst.
+  - rewrite !andb_true_iff. intros [[[H1 H2] H3] H4]. apply kvs_eqb_eq in H1.
+    apply eqb_prop in H2. apply eqb_prop in H3. subst.
+    destruct member as [x|], member0 as [y|]; simpl in H4; try discriminate; trivial.
+    apply eqb_prop in H4. now subst.
 Qed.
 
 Lemma res_fval_eqb_eq (a b : res fval) : res_eqb fval_eqb a b = true -> a = b.
